@@ -33,3 +33,14 @@ Theorem C14_package_balanced : forall title s, Tok.textual title -> Tok.textual 
   Forall (fun im => Tok.no_c 62 (Xhtml.X.base_name im []) = true) (images s) -> TocStr.balanced_chunk (fst (Xhtml.X.content_opf title s)).
 Proof. exact Epub.content_opf_balanced. Qed.
 Print Assumptions C14_package_balanced.
+
+(* whole pipeline, for every document of the sub-language of Proofs/FragH.v compiled as an EPUB: no panic, and every file
+   of the book - mimetype, container, package, navigation document, stylesheet, NCX, index page and one page per part
+   and chapter - is balanced (the hypotheses of the four theorems above are discharged for the states epubGen sees) *)
+Require FragH FragB.
+Theorem C14_epub_files_balanced_partial : forall fuel wd main bs, Forall FragH.in_fragH bs ->
+  let s := snd (compile (S fuel) (R "epub") 3 wd main bs) in
+  panicked s = None /\ Forall (fun f => Tok.run (snd f) (Tok.Txt, []) = (Tok.Txt, [])) (files s).
+Proof. intros fuel wd main bs H.
+  destruct (FragH.C02_headers_balanced_modes fuel (R "epub") 3 wd main bs (or_intror eq_refl) (le_n 3) H) as (A & _ & _ & D & _). exact (conj A D). Qed.
+Print Assumptions C14_epub_files_balanced_partial.
